@@ -46,6 +46,13 @@ func (o Outcome) String() string {
 // materialised arguments and recovers a panic into the outcome.
 func (w *World) invoke(op Op) (out Outcome) {
 	var m reflect.Value
+	if op.M == "world.setop" {
+		// the history changes the text of a user-defined operator after the fact
+		if len(op.Args) == 2 {
+			w.flipText[op.Args[0].S] = op.Args[1].S
+		}
+		return
+	}
 	if strings.HasPrefix(op.M, "pkg.") {
 		m = pkgFuncs[op.M]
 	} else if strings.HasPrefix(op.M, "aux.") {
